@@ -66,6 +66,64 @@ def register(add, parse, find_func, const_int, rat_of, ShapeError, module_assign
         "Actuator.run starts every installed trigger afresh (after initialize(), before the first bar) and restores strategy.triggers afterwards")
     add("coreRunResetsGivenTriggersOnly", "Bool", "true" if (resets_given and not resets_all and restores) else "false",
         "Actuator.run resets only the triggers installed before the run (those installed by initialize() keep their state)")
+    # --- how a run ends when a hook raises (C05) and how the trigger loop iterates (C18) -------------------------------------------------
+    # class DemeterError(<base>): is an uncaught refusal of an operation a RuntimeError (what the handler around the bar loop catches)?
+    typ = parse("demeter/_typing.py")
+    bases = None
+    for n in typ.body:
+        if isinstance(n, ast.ClassDef) and n.name == "DemeterError":
+            bases = [getattr(b, "id", getattr(b, "attr", "?")) for b in n.bases]
+    if bases is None:
+        raise ShapeError("class DemeterError not found in demeter/_typing.py")
+    add("coreDemeterErrorIsRuntimeError", "Bool", "true" if "RuntimeError" in bases else "false",
+        f"DemeterError derives from RuntimeError (bases {bases}): the except clause around the bar loop catches it")
+    # the bar loop: the `for` over the bar index whose body calls before_bar
+    loop_fn = bodies[-1]
+    bar_loops = [n for n in ast.walk(loop_fn) if isinstance(n, ast.For)
+                 and any(isinstance(c, ast.Call) and getattr(c.func, "attr", "") == "before_bar" for c in ast.walk(n))]
+    if len(bar_loops) != 1:
+        raise ShapeError(f"expected one bar loop (a `for` whose body calls before_bar) in {loop_fn.name}, found {len(bar_loops)}")
+    bar_loop = bar_loops[0]
+    # the `try` that encloses it: does a handler for RuntimeError build the account frame (`_generate_account_status_df`) before re-raising?
+    builds = False
+    for t in ast.walk(loop_fn):
+        if isinstance(t, ast.Try) and any(bar_loop is x for b in t.body for x in ast.walk(b)):
+            for h in t.handlers:
+                names = [getattr(x, "id", getattr(x, "attr", "")) for x in ([h.type] if not isinstance(h.type, ast.Tuple) else h.type.elts)] if h.type is not None else ["BaseException"]
+                if "RuntimeError" not in names:
+                    if any(nm in ("Exception", "BaseException") for nm in names):
+                        raise ShapeError("the bar loop is guarded by a handler for every exception: the model of a raising hook must be revised")
+                    continue
+                calls = [getattr(c.func, "attr", "") for x in h.body for c in ast.walk(x) if isinstance(c, ast.Call)]
+                reraises = any(isinstance(x, ast.Raise) for y in h.body for x in ast.walk(y))
+                if not reraises:
+                    raise ShapeError("the RuntimeError handler around the bar loop no longer re-raises")
+                guarded = any(isinstance(x, (ast.If, ast.Try)) and any(isinstance(c, ast.Call) and getattr(c.func, "attr", "") == "_generate_account_status_df"
+                                                                       for c in ast.walk(x)) for y in h.body for x in ast.walk(y))
+                if "_generate_account_status_df" in calls:
+                    if guarded:
+                        raise ShapeError("the RuntimeError handler builds the account frame under a guard: the model of a raising hook must be revised")
+                    builds = True
+    add("coreRuntimeErrorHandlerBuildsFrame", "Bool", "true" if builds else "false",
+        "the `except RuntimeError` clause around the bar loop calls _generate_account_status_df() unguarded before re-raising: with no account row "
+        "yet (a hook raising on the first bar) pandas raises IndexError there, which replaces the hook's exception")
+    # the trigger loop: `for <t> in <expr>: if <t>.when(…): <t>.do(…)` — over the live list `….triggers` or over a copy?
+    trig_loops = [n for n in ast.walk(bar_loop) if isinstance(n, ast.For) and n is not bar_loop
+                  and any(isinstance(c, ast.Call) and getattr(c.func, "attr", "") == "when" for c in ast.walk(n))]
+    if len(trig_loops) != 1:
+        raise ShapeError(f"expected one trigger loop (a `for` calling .when) inside the bar loop, found {len(trig_loops)}")
+    it = trig_loops[0].iter
+    if isinstance(it, ast.Attribute) and it.attr == "triggers":
+        live = True
+    elif (isinstance(it, ast.Call) and getattr(it.func, "id", getattr(it.func, "attr", "")) in ("list", "tuple", "copy") and it.args
+          and getattr(it.args[0], "attr", "") == "triggers") or (isinstance(it, ast.Subscript) and getattr(it.value, "attr", "") == "triggers"
+                                                                   and isinstance(it.slice, ast.Slice)):
+        live = False
+    else:
+        raise ShapeError("the trigger loop iterates neither strategy.triggers nor a copy of it")
+    add("coreTriggerLoopOverLiveList", "Bool", "true" if live else "false",
+        "the trigger loop of the bar loop iterates strategy.triggers itself (index by index), not a copy: a do() that changes the list changes what "
+        "the rest of the loop sees")
     if default is None or compared is None or default != compared:
         raise ShapeError(f"Actuator.interval default {default!r} and the literal run() compares with {compared!r} should be the same string")
     add("coreRawIntervalSec", "Int", f"({_seconds(default, ShapeError)})", f"the interval string {default!r} for which run() does not resample, in seconds")
